@@ -70,11 +70,22 @@ def proof_layer(pid, cfg, thorough):
     problems = []
     with Lock('lake'):
         rc, out = sh(['lake', 'build'] + mods + ['cbmodel'], cwd=LEAN, timeout=3000)
-    if rc != 0:
-        bad = [l for l in out.splitlines() if 'error' in l][:10]
-        problems.append({'kind': 'lake-build-failed', 'detail': bad or out[-2000:]})
-        return dict(obligations=1, discharged=0, theorems=[], problems=problems,
-                    checker_cmd='lake build ' + ' '.join(mods))
+        if rc != 0:
+            # find out which module fails; the others are still audited
+            rc0, out0 = sh(['lake', 'build', 'cbmodel'], cwd=LEAN, timeout=3000)
+            if rc0 != 0:
+                problems.append({'kind': 'lake-build-failed', 'module': 'cbmodel', 'detail': [l for l in out0.splitlines() if 'error' in l][:10]})
+                return dict(obligations=1, discharged=0, theorems=[], problems=problems, checker_cmd='lake build cbmodel')
+            good = []
+            for mod in mods:
+                rcm, outm = sh(['lake', 'build', mod], cwd=LEAN, timeout=3000)
+                if rcm != 0:
+                    problems.append({'kind': 'lake-build-failed', 'module': mod, 'detail': [l for l in outm.splitlines() if 'error' in l][:6]})
+                else: good.append(mod)
+            failed_mods = [m for m in mods if m not in good]
+            mods = good
+        else:
+            failed_mods = []
     # forbidden tokens (outside comments) in every Lean source the property's modules depend on
     for path in import_closure(mods + ['ClockBound.Model.Driver']):
         src = stmts.strip_comments(open(path).read())
@@ -112,6 +123,11 @@ def proof_layer(pid, cfg, thorough):
             rc, out = sh(['lake', 'env', 'leanchecker', mod], cwd=LEAN, timeout=3000)
             if rc != 0: problems.append({'kind': 'leanchecker', 'module': mod, 'detail': out[-500:]})
         cmd += ' && lake env leanchecker ' + ' '.join(mods)
+    # theorems of modules that no longer build are undischarged obligations
+    for mod in failed_mods:
+        path = f"{LEAN}/{mod.replace('.', '/')}.lean"
+        ns = lean_namespace(path)
+        for n in stmts.statements(path): names.append(f'{ns}.{n}' if ns else n)
     if problems and discharged == len(names): discharged = max(0, len(names) - 1)
     return dict(obligations=len(names), discharged=discharged, theorems=thms, problems=problems, checker_cmd=cmd)
 
@@ -239,6 +255,13 @@ def check(pid, tier, seed):
     thorough = tier == 'thorough'
     violations = []          # (replay path, suffix)
     known_lines = []
+    if cfg.get('pre'):
+        rcp, outp = props.PRE_HOOKS[cfg['pre']]()
+        if rcp != 0:
+            path = write_replay(pid, seed, 'pre', {'property': pid, 'what': 'pre-build step failed (translator could not parse a published description, or the C library/client does not build)', 'log': outp[-4000:]})
+            print(outp[-3000:])
+            print(f'VIOLATION property={pid} replay={path} no-failing-input-found')
+            return 1
     proof = proof_layer(pid, cfg, thorough)
     rc, out = build_harness()
     if rc != 0:
@@ -312,12 +335,15 @@ def check(pid, tier, seed):
             for d in cs:
                 if (d.verdicts.get(oracle) == 'FAILS') and not is_known(d): fails.append(d)
             if fails: break
-        if not fails and not thorough:
-            for g in cfg['gens'](seed + 1, True):
-                if callable(g): continue
-                rc, out = run_harness(g)
-                cs = evaluate(out.splitlines()); searched += len(cs)
-                fails += [d for d in cs if d.verdicts.get(oracle) == 'FAILS' and not is_known(d)]
+        if not fails:
+            # more seeded cases (two further seeds of this tier's generators; the thorough tier is the deep search)
+            for extra in (1, 2):
+                for g in cfg['gens'](seed + extra, thorough):
+                    if callable(g): continue
+                    rc, out = run_harness(g)
+                    cs = evaluate(out.splitlines()); searched += len(cs)
+                    fails += [d for d in cs if d.verdicts.get(oracle) == 'FAILS' and not is_known(d)]
+                    if fails: break
                 if fails: break
     # 4. proof layer problems
     if proof['problems']:
